@@ -370,11 +370,18 @@ class PVLParser(object):
                             # cannot be backed out of as a plain ValueError
                             # would tell parse_module() to do (it would
                             # silently drop the block): it is an error.
-                            tokens.throw(
-                                ValueError,
+                            msg = (
                                 f'The block "{begin} = {block_name}" is not '
                                 f"closed: {ve}"
                             )
+                            try:
+                                tokens.throw(ValueError, msg)
+                            except LexerError:
+                                raise
+                            except ValueError:
+                                # The lexer had already run dry, so there
+                                # was nothing to throw the error into.
+                                raise ParseError(msg)
 
         return block_name, agg
 
